@@ -880,6 +880,8 @@ class Prims:
         if not cs:
             return False
         for c in cs:
+            # (what a function returns through a callable taken from a table is not something this summary can see: undecided rather than "not hex")
+            self.A.P._refuse_computed_callees(c.fn)
             rets = [r for r in self.A.own_nodes(c.fn) if isinstance(r, ast.Return)]
             if not rets:
                 return False
